@@ -13,6 +13,14 @@ CLAIMS = {
         "text": "Exclusion (at most one guard; the state word equals guards + 2*starved operations; a guard is only handed out when none is alive) is a Lean theorem over every finite history of the poll-granular Mutex model: every mix of lock/lock_arc/try_lock/try_lock_arc, cancellation at any point, the 0.5 ms branch taken or not at every evaluation point. " + _TIE + " Compared fields: outcome and state word.",
         "note": "PARTIAL: atomic calls (poll-granular); interleavings of atomic operations and the release-happens-before-acquire clause are not yet covered by a theorem. event-listener is modelled, not verified.",
     },
+    "C02": {
+        "text": "Exclusion (at most one write guard and then no other guard; at most one upgradable guard) is a Lean theorem over every finite history of the poll-granular RwLock model over the full alphabet (start/poll/cancel of read, upgradable_read, write and upgrade futures, borrowed and Arc; try_*; upgrade; try_upgrade; the three downgrades; guard drops). The invariant WordInv determines both words exactly: mutex.state = (W+U+PW+PU) + 2*starved, state = (W+PW+PU) + 2*(R+U), W+U+PW+PU <= 1, a write guard is alone. " + _TIE + " Compared fields: outcome and both state words.",
+        "note": "PARTIAL: atomic calls (poll-granular); interleavings and the happens-before clauses are not yet covered by a theorem. Reader-count overflow aborts are outside the model.",
+    },
+    "C11": {
+        "text": "The slot invariant (at most one of write guard / upgradable guard / writer waiting for readers / pending upgrade, at every state of every history), the fact that try_upgrade, upgrade() and downgrade_to_upgradable never touch the inner mutex, and 'a pending upgrade excludes writers and upgradable readers' are Lean theorems on the poll-granular RwLock model. " + _TIE + " Compared fields: outcome and both state words; monitors C11 (slot word) and C02.",
+        "note": "PARTIAL: atomic calls; the value clause is derived from exclusive access (C02) rather than from a payload model.",
+    },
     "C03": {
         "text": "Conservation, no over-issue, exactness of try_acquire and the per-operation permit deltas are Lean theorems over every initial count and every finite operation sequence of the poll-granular Semaphore model (induction on the history). " + _TIE + " Compared fields: outcome and permit counter.",
         "note": "PARTIAL: poll-granular (atomic calls); usize wrap-around outside the model (Nat); interleavings not yet covered by a theorem.",
